@@ -30,6 +30,7 @@ func eps() []entryPoint {
 		{"Trace", 6, false, func(l *slog.Entry, r slog.Level, m string) { l.Trace(m) }},
 		{"Print", 8, false, func(l *slog.Entry, r slog.Level, m string) { l.Print(m) }},
 		{"Println", 8, false, func(l *slog.Entry, r slog.Level, m string) { l.Println(m) }},
+		{"Println()", 8, false, func(l *slog.Entry, r slog.Level, m string) { l.Println() }},
 		{"OK", 9, false, func(l *slog.Entry, r slog.Level, m string) { l.OK(m) }},
 		{"Success", 10, false, func(l *slog.Entry, r slog.Level, m string) { l.Success(m) }},
 		{"Fail", 11, false, func(l *slog.Entry, r slog.Level, m string) { l.Fail(m) }},
@@ -62,6 +63,7 @@ func eps() []entryPoint {
 		{"pkg.Trace", 6, true, func(l *slog.Entry, r slog.Level, m string) { slog.Trace(m) }},
 		{"pkg.Print", 8, true, func(l *slog.Entry, r slog.Level, m string) { slog.Print(m) }},
 		{"pkg.Println", 8, true, func(l *slog.Entry, r slog.Level, m string) { slog.Println(m) }},
+		{"pkg.Println()", 8, true, func(l *slog.Entry, r slog.Level, m string) { slog.Println() }},
 		{"pkg.OK", 9, true, func(l *slog.Entry, r slog.Level, m string) { slog.OK(m) }},
 		{"pkg.Success", 10, true, func(l *slog.Entry, r slog.Level, m string) { slog.Success(m) }},
 		{"pkg.Fail", 11, true, func(l *slog.Entry, r slog.Level, m string) { slog.Fail(m) }},
